@@ -42,11 +42,13 @@ TraceInit ==
   /\ dup = FALSE /\ folded = {} /\ chained = <<>> /\ lateAdd = FALSE /\ out = <<>>
 
 Step(a) == More /\ a /\ l' = l + 1 /\ UNCHANGED tid
-TInject == /\ More /\ Ev.e = "Inject" /\ Step(Inject(Ev.p, Ev.r))
+TInject == /\ More /\ Ev.e = "Inject"
+           /\ Ev.p \in Pairs /\ Ev.r \in Recs   \* r = 0: no receiver there
+           /\ Step(Inject(Ev.p, Ev.r))
            /\ Ev.posok /\ Ev.strok
-TBack == More /\ Ev.e = "BackSolve" /\ Step(BackSolve(Ev.p))
-TAcc == More /\ Ev.e = "Acc" /\ Step(Accumulate(Ev.p))
-TChain == /\ More /\ Ev.e = "Chain" /\ Step(Chain(Ev.d))
+TBack == More /\ Ev.e = "BackSolve" /\ Ev.p \in Pairs /\ Step(BackSolve(Ev.p))
+TAcc == More /\ Ev.e = "Acc" /\ Ev.p \in Pairs /\ Step(Accumulate(Ev.p))
+TChain == /\ More /\ Ev.e = "Chain" /\ Ev.d \in Dirs /\ Step(Chain(Ev.d))
           /\ ToSet(Ev.content) = raw[Ev.d]
 TResult == /\ More /\ Ev.e = "Result" /\ Step(Select) /\ ~Ev.dup
            /\ Len(Ev.rows) = Len(out')
